@@ -335,7 +335,11 @@ func (c *c01e2eChain) answer(req *c01e2eReq) c01e2eResp {
 		if tx.To() != nil {
 			to = append([]byte{}, tx.To().Bytes()...)
 		}
-		c.raw = append(c.raw, c01Send{To: to, Data: append([]byte{}, tx.Data()...), OK: c.storeOK})
+		seq := 0
+		if c.storeOK {
+			seq = int(c.accepted) + 1
+		}
+		c.raw = append(c.raw, c01Send{To: to, Data: append([]byte{}, tx.Data()...), OK: c.storeOK, Seq: seq})
 		if !c.storeOK {
 			return fail(-32000, "verif: scripted refusal")
 		}
